@@ -39,10 +39,10 @@ func builtinMathAtan(call FunctionCall) Value {
 
 func builtinMathAtan2(call FunctionCall) Value {
 	y := call.Argument(0).float64()
+	x := call.Argument(1).float64()
 	if math.IsNaN(y) {
 		return NaNValue()
 	}
-	x := call.Argument(1).float64()
 	if math.IsNaN(x) {
 		return NaNValue()
 	}
